@@ -73,52 +73,53 @@ proof fn lemma_no_link(forward: bool, from_coord: Coord, to: Seq<&Coord>, k: int
 '''
 SPEC = r'''
         requires
-            to@.len() >= 1,
-            forall|a: int, b: int| 0 <= a < b < to@.len() ==> *#[trigger] to@[a] != *#[trigger] to@[b],
-            forall|a: int| 0 <= a < to@.len() ==> (#[trigger] to@[a]).block_id == to@[0].block_id,
+            §to§@.len() >= 1,
+            forall|a: int, b: int| 0 <= a < b < §to§@.len() ==> *#[trigger] §to§@[a] != *#[trigger] §to§@[b],
+            forall|a: int| 0 <= a < §to§@.len() ==> (#[trigger] §to§@[a]).block_id == §to§@[0].block_id,
         ensures
             // exactly the wanted links, in the order of `to`, nothing else touched
             final(self_).network.links() == old(self_).network.links()
-                + links_upto(from.is_only_one_strategy || fragile, from_coord, to@, to@.len() as int),                        // #obl:wiring.links_created_for_one_producer_replica
+                + links_upto(from.is_only_one_strategy || fragile, from_coord, §to§@, §to§@.len() as int),                        // #obl:wiring.links_created_for_one_producer_replica
             // all-to-all edges: every consumer
             !(from.is_only_one_strategy || fragile) ==>
-                final(self_).network.links().len() == old(self_).network.links().len() + to@.len(),                              // #obl:wiring.all_to_all_otherwise
+                final(self_).network.links().len() == old(self_).network.links().len() + §to§@.len(),                              // #obl:wiring.all_to_all_otherwise
             // forward edges: every producer replica gets EXACTLY ONE consumer (C19) ...
-            (from.is_only_one_strategy || fragile) && (to@.len() == 1 || exists|j: int| 0 <= j < to@.len() && same_index(*#[trigger] to@[j], from_coord)) ==>
+            (from.is_only_one_strategy || fragile) && (§to§@.len() == 1 || exists|j: int| 0 <= j < §to§@.len() && same_index(*#[trigger] §to§@[j], from_coord)) ==>
                 final(self_).network.links().len() == old(self_).network.links().len() + 1,                                      // #obl:wiring.forward_link_exactly_one_consumer
             // ... also when the consumer block has several replicas but none with the producer's (host, replica) index
-            (from.is_only_one_strategy || fragile) && to@.len() > 1 && (forall|j: int| 0 <= j < to@.len() ==> !same_index(*#[trigger] to@[j], from_coord)) ==>
+            (from.is_only_one_strategy || fragile) && §to§@.len() > 1 && (forall|j: int| 0 <= j < §to§@.len() ==> !same_index(*#[trigger] §to§@[j], from_coord)) ==>
                 final(self_).network.links().len() == old(self_).network.links().len() + 1,                                      // #obl:wiring.forward_link_exactly_one_consumer_without_same_index_replica
             // ... the same-index one when it exists
-            (from.is_only_one_strategy || fragile) && to@.len() > 1 ==>
-                forall|j: int| 0 <= j < to@.len() && same_index(*#[trigger] to@[j], from_coord) ==>
-                    final(self_).network.links().last() == (from_coord, *to@[j]),                                                // #obl:wiring.forward_link_goes_to_the_same_index_replica
+            (from.is_only_one_strategy || fragile) && §to§@.len() > 1 ==>
+                forall|j: int| 0 <= j < §to§@.len() && same_index(*#[trigger] §to§@[j], from_coord) ==>
+                    final(self_).network.links().last() == (from_coord, *§to§@[j]),                                                // #obl:wiring.forward_link_goes_to_the_same_index_replica
 '''
 
 
 def build(x):
     c = x.struct(FN, 'Coord'); c.text = '#[derive(Clone, Copy)]\n' + c.text
-    lp = x.stmt(F, 'Scheduler', 'build_execution_graph', r'for &to_coord in &to \{')
-    lp.sub('V-ITER', r'for &to_coord in &to \{', 'let mut __i: usize = 0; while __i < to.len() { let to_coord = to[__i]; __i += 1;', detail='`for &x in &v {` -> while loop with index', must=True)
+    lp = x.stmt(F, 'Scheduler', 'build_execution_graph', r'for &to_coord in &\w+ \{')
+    lp.bind('to', r'for &to_coord in &(\w+) \{')
+    lp.sub('V-ITER', r'for &to_coord in &(\w+) \{', r'let mut __i: usize = 0; while __i < \1.len() { let to_coord = \1[__i]; __i += 1;', detail='`for &x in &v {` -> while loop with index', must=True)
     lp.sub('V-SUBST', r'\bself\.network\b', 'self_.network', detail='`self` is a parameter of the wrapper function (named self_)')
-    lp.text = ("fn wire_replica(self_: &mut Scheduler, from: &SchedulerBlockInfo, from_coord: Coord, to: Vec<&Coord>, typ: TypeId, fragile: bool)\n"
+    lp.text = ("fn wire_replica(self_: &mut Scheduler, from: &SchedulerBlockInfo, from_coord: Coord, §to§: Vec<&Coord>, typ: TypeId, fragile: bool)\n"
                + SPEC + "{\n    let ghost fwd = from.is_only_one_strategy || fragile;\n    " + lp.text + "\n    /*@loop_end*/\n}\n")
     lp.add_loop_spec(1, r'''
-        invariant __i <= to@.len(), fwd == (from.is_only_one_strategy || fragile),
-            self_.network.links() == old(self_).network.links() + links_upto(fwd, from_coord, to@, __i as int),   // #obl:wiring.each_consumer_linked_iff_wanted
-        decreases to@.len() - __i,
+        invariant __i <= §to§@.len(), fwd == (from.is_only_one_strategy || fragile),
+            self_.network.links() == old(self_).network.links() + links_upto(fwd, from_coord, §to§@, __i as int),   // #obl:wiring.each_consumer_linked_iff_wanted
+        decreases §to§@.len() - __i,
 ''')
     lp.insert_after('/*@loop_end*/', r'''
     proof {
-        let n = to@.len() as int;
-        if !fwd { lemma_all(from_coord, to@, n); }
-        else if n == 1 { assert(links_upto(fwd, from_coord, to@, 0) =~= Seq::<(Coord, Coord)>::empty()); assert(links_upto(fwd, from_coord, to@, 1).len() == 1); }
-        else if exists|j: int| 0 <= j < n && same_index(*#[trigger] to@[j], from_coord) {
-            let j = choose|j: int| 0 <= j < n && same_index(*#[trigger] to@[j], from_coord);
-            lemma_one_link(fwd, from_coord, to@, n, j);
-            lemma_last_link(fwd, from_coord, to@, n, j);
+        let n = §to§@.len() as int;
+        if !fwd { lemma_all(from_coord, §to§@, n); }
+        else if n == 1 { assert(links_upto(fwd, from_coord, §to§@, 0) =~= Seq::<(Coord, Coord)>::empty()); assert(links_upto(fwd, from_coord, §to§@, 1).len() == 1); }
+        else if exists|j: int| 0 <= j < n && same_index(*#[trigger] §to§@[j], from_coord) {
+            let j = choose|j: int| 0 <= j < n && same_index(*#[trigger] §to§@[j], from_coord);
+            lemma_one_link(fwd, from_coord, §to§@, n, j);
+            lemma_last_link(fwd, from_coord, §to§@, n, j);
         } else {
-            lemma_no_link(fwd, from_coord, to@, n);
+            lemma_no_link(fwd, from_coord, §to§@, n);
         }
     }''')
     extra = r'''
